@@ -35,8 +35,26 @@ pub fn tokenize_program(
     file_id: &FileId,
     options: &ParseOptions,
 ) -> (Vec<Token>, Vec<Diagnostic>) {
-    let source = preprocess(source);
-    let (tokens, mut errors) = tokenize(&source, file_id);
+    let preprocessed = preprocess(source);
+    let (mut tokens, mut errors) = tokenize(&preprocessed, file_id);
+
+    if preprocessed != source {
+        // The preprocessor keeps the positions by writing one blank per byte. The lexer
+        // counts columns in characters, so what follows blanked characters of more than
+        // one byte on the same line has its column from the text as it was written.
+        // The tokens are in the order of the text: read on from the previous one.
+        let mut offset = 0;
+        let mut col = 0;
+        for token in tokens.iter_mut() {
+            if let Some(between) = source.get(offset..token.span.start) {
+                for c in between.chars() {
+                    col = if c == '\n' { 0 } else { col + 1 };
+                }
+                offset = token.span.start;
+            }
+            token.col = col;
+        }
+    }
 
     let tokens = insert_keyword_statement_terminators(tokens, file_id);
     let result = check_tokens(&tokens, options);
